@@ -421,4 +421,6 @@ def run(ctx):
     check_stack(ctx, P)
     check_msignal(ctx, P)
     check_init(ctx, P, "fiber_multi_signal_init", [("fiber_multi_signal::data", "counter", 0), ("fiber_multi_signal::data", "head", 0)], rule="init.msignal")
+    check_init(ctx, P, "mpmc_stack_init", [("mpmc_stack", "head", 0)], rule="init.stack")
+    check_init(ctx, P, "dist_fifo_init", [("dist_fifo_pointer", "counter", 0)], calls=["calloc"], rule="init.dist")
     check_init(ctx, P, "mpmc_lifo_init", [("mpmc_lifo_t::data", "counter", 0), ("mpmc_lifo_t::data", "head", 0)], rule="init.lifo")
